@@ -345,6 +345,7 @@ package thrift
 //@   ensures len(buf) >= 4 && sz < 0 ==> err == errNegativeSize && l == 0 && len(s) == 0
 //@   ensures len(buf) >= 4 && sz >= 0 && len(buf) < 4+sz ==> err == errReadStr && l == 4 && len(s) == 0
 //@   ensures len(buf) >= 4 && sz >= 0 && len(buf) >= 4+sz ==> err == nil && l == 4+sz && len(s) == sz && eqbytes(s, 0, buf, 4, sz)
+//@   ensures 0 <= l && l <= len(buf)
 //@   ensures[C16] err == nil ==> fresh(s)
 
 //@ func BinaryProtocol.ReadMessageBegin
